@@ -237,6 +237,91 @@ def extract_fn(item, opts, blocks, rewrites_log, as_stub=False):
                 edits.append((tk(q)[2], tk(q)[3], R('8', 'Self', opts['selfty'])))
         rewrites_log.append({'rule': 'R8', 'fn': item.name, 'before': 'Self', 'after': opts['selfty']})
 
+    # ---- R4: slice iterator idioms -> index loops (opt iter=1). Exactly these shapes:
+    #   R.iter_mut().zip(C.iter()).for_each(|(r, c)| *r = E);     (c or &c)
+    #   C.iter().zip(R.iter_mut()).for_each(|(c, r)| *r = E);     (c or &c)
+    #   X.iter_mut().for_each(|c| *c = E);
+    # become `for verif_k in 0..verif_min(R.len(), C.len()) { let c = C[verif_k] | &C[verif_k]; R[verif_k] = E; }`
+    # (the zip of two slice iterators stops at the shorter one). Ghost text for the generated loop: //@ iterloop k / iterend k.
+    r4_spans = []
+    if opts.get('iter') == '1' and not as_stub:
+        q = bodyp + 1; nloop = 0
+        def seq(q, words):
+            return all(q + i < bodye and tk(q + i)[1] == w for i, w in enumerate(words))
+        while q < bodye:
+            if tk(q)[0] == 'id' and (seq(q + 1, ['.', 'iter_mut', '(', ')']) or seq(q + 1, ['.', 'iter', '(', ')'])) and (q == bodyp + 1 or tk(q - 1)[1] in (';', '{', '}')):
+                x1 = tk(q)[1]; m1 = tk(q + 2)[1]; r = q + 5
+                x2 = None; m2 = None
+                if seq(r, ['.', 'zip', '(']) and tk(r + 3)[0] == 'id' and (seq(r + 4, ['.', 'iter', '(', ')', ')']) or seq(r + 4, ['.', 'iter_mut', '(', ')', ')'])):
+                    x2 = tk(r + 3)[1]; m2 = tk(r + 5)[1]; r = r + 9
+                if seq(r, ['.', 'for_each', '(', '|']):
+                    po = r + 3
+                    pc = po + 1
+                    while tk(pc)[1] != '|': pc += 1
+                    pat = [tk(i)[1] for i in range(po + 1, pc)]
+                    fe_close = match_close(toks, ci, r + 2)
+                    body_txt = text[tk(pc + 1)[2]:tk(fe_close - 1)[3]]
+                    if tk(fe_close + 1)[1] != ';':
+                        raise GenErr('%s: R4: for_each not used as a statement' % item.name)
+                    # parse pattern
+                    names = [w for w in pat if re.match(r'[A-Za-z_]\w*$', w)]
+                    def is_ref(nm):
+                        i = pat.index(nm); return i > 0 and pat[i - 1] == '&'
+                    if x2 is None:
+                        if m1 != 'iter_mut' or len(names) != 1: raise GenErr('%s: R4: unsupported single-iterator shape' % item.name)
+                        c = names[0]; tgt = x1
+                        mm = re.match(r'\s*\*\s*%s\s*=(?!=)(.*)$' % re.escape(c), body_txt, re.S)
+                        if not mm: raise GenErr('%s: R4: closure body is not `*%s = E`' % (item.name, c))
+                        expr = mm.group(1).strip()
+                        nloop += 1
+                        new = ('for verif_k in verif_it: 0..%s.len() %s{ let verif_old = %s[verif_k]; let %s = &verif_old; %s[verif_k] = %s; %s}'
+                               % (tgt, G('iterloop %d' % nloop, '\n' + blocks.get('iterloop %d' % nloop, '').rstrip() + '\n'), tgt, c, tgt, expr,
+                                  G('iterend %d' % nloop, '\n' + blocks.get('iterend %d' % nloop, '').rstrip() + '\n')))
+                    else:
+                        if len(names) != 2 or {m1, m2} != {'iter', 'iter_mut'}: raise GenErr('%s: R4: unsupported zip shape' % item.name)
+                        (rn, cn) = (names[0], names[1]) if m1 == 'iter_mut' else (names[1], names[0])
+                        (rx, cx) = (x1, x2) if m1 == 'iter_mut' else (x2, x1)
+                        mm = re.match(r'\s*\*\s*%s\s*=(?!=)(.*)$' % re.escape(rn), body_txt, re.S)
+                        if not mm: raise GenErr('%s: R4: closure body is not `*%s = E`' % (item.name, rn))
+                        expr = mm.group(1).strip()
+                        bind = 'let %s = %s[verif_k];' % (cn, cx) if is_ref(cn) else 'let %s = &%s[verif_k];' % (cn, cx)
+                        nloop += 1
+                        new = ('for verif_k in verif_it: 0..verif_min(%s.len(), %s.len()) %s{ %s %s[verif_k] = %s; %s}'
+                               % (rx, cx, G('iterloop %d' % nloop, '\n' + blocks.get('iterloop %d' % nloop, '').rstrip() + '\n'), bind, rx, expr,
+                                  G('iterend %d' % nloop, '\n' + blocks.get('iterend %d' % nloop, '').rstrip() + '\n')))
+                    s0 = tk(q)[2]; e0 = tk(fe_close + 1)[3]
+                    edits.append((s0, e0, R('4', text[s0:e0], new)))
+                    r4_spans.append((s0, e0))
+                    rewrites_log.append({'rule': 'R4', 'fn': item.name, 'before': re.sub(r'\s+', ' ', text[s0:e0])[:200], 'after': re.sub(r'/\*@G.*?\*/.*?/\*@/G\*/', '', new, flags=re.S)[:200]})
+                    q = fe_close + 2; continue
+            q += 1
+
+    # ---- R11: `&mut X[A..B]` on a slice parameter X -> verif_slice_mut(X, A, B) (opt slicemut=1): Verus has no specification
+    #      for mutable range indexing; the stub carries the std semantics as an ASSUMED contract.
+    if opts.get('slicemut') == '1' and not as_stub:
+        q = bodyp + 1
+        while q < bodye - 3:
+            if tk(q)[1] == '&' and tk(q + 1)[1] == 'mut' and tk(q + 2)[0] == 'id' and tk(q + 3)[1] == '[':
+                cb = match_close(toks, ci, q + 3)
+                dd = [i for i in range(q + 4, cb) if tk(i)[1] == '..']
+                depth_ok = []
+                for i in dd:
+                    depth = 0
+                    for j2 in range(q + 4, i):
+                        if tk(j2)[1] in OPEN: depth += 1
+                        elif tk(j2)[1] in CLOSE: depth -= 1
+                    if depth == 0: depth_ok.append(i)
+                if len(depth_ok) == 1:
+                    i = depth_ok[0]
+                    a = text[tk(q + 4)[2]:tk(i - 1)[3]] if i > q + 4 else '0'
+                    b = text[tk(i + 1)[2]:tk(cb - 1)[3]] if i + 1 < cb else '%s.len()' % tk(q + 2)[1]
+                    s0 = tk(q)[2]; e0 = tk(cb)[3]
+                    if not any(a0 <= s0 < b0 for (a0, b0) in r4_spans):
+                        edits.append((s0, e0, R('11', text[s0:e0], 'verif_slice_mut(%s, %s, %s)' % (tk(q + 2)[1], a, b))))
+                        rewrites_log.append({'rule': 'R11', 'fn': item.name, 'before': text[s0:e0], 'after': 'verif_slice_mut(%s, %s, %s)' % (tk(q + 2)[1], a, b)})
+                    q = cb + 1; continue
+            q += 1
+
     # user rewrites are located first: automatic rewrites inside their spans are suppressed
     user_spans = []
     for rw in blocks.get('_rewrites', []):
@@ -330,6 +415,8 @@ def extract_fn(item, opts, blocks, rewrites_log, as_stub=False):
             while q < loops[k - 1][1] and not (tk(q)[0] == 'id' and tk(q)[1] == 'in'): q += 1
             pos = tk(q)[3]
             edits.append((pos, pos, G(key, ' %s: ' % nm)))
+        elif key.startswith('iterloop ') or key.startswith('iterend '):
+            continue
         elif key.startswith('loop '):
             k = int(key.split()[1])
             if k < 1 or k > len(loops):
@@ -513,6 +600,8 @@ def parse_extract_blocks(lines, i):
                 cur = d.split()[0]
             elif d.split()[0] == 'loopiter':
                 cur = 'loopiter %d %s' % (int(d.split()[1]), d.split()[2])
+            elif d.split()[0] in ('iterloop', 'iterend'):
+                cur = '%s %d' % (d.split()[0], int(d.split()[1]))
             elif d.split()[0] in ('loop', 'loopend'):
                 cur = '%s %d' % (d.split()[0], int(d.split()[1])) if d.split()[0] == 'loop' else 'loopend %d -' % int(d.split()[1])
             elif d.split()[0] in ('before', 'after'):
